@@ -144,9 +144,9 @@ func (s *dualSys) caseOf(op *Op) c03Case {
 
 func c03Alphabet(u *universe, thorough bool) alphabetConfig {
 	c := alphabetConfig{Repos: u.Repos, BadRepo: false, Chunked: true, MaxUploads: 1, MaxUpload: 3,
-		Manifests: []int{0, 1, 2, 3, 5, 6}, Blobs: []int{0, 1, 2}, Deletes: true, Mounts: true, BadPushes: true, UntaggedToo: true}
+		Manifests: []int{0, 1, 2, 3, 5, 6}, Blobs: []int{0, 1, 2}, Deletes: true, Mounts: true, BadPushes: true, UntaggedToo: true, ReadsOp: true}
 	for i, m := range u.Manifests {
-		if m.Name == "mbig" || m.Name == "mparam" {
+		if m.Name == "mbig" || m.Name == "mbig2" || m.Name == "mparam" {
 			c.Manifests = append(c.Manifests, i)
 		}
 	}
@@ -165,6 +165,10 @@ func newDualSys(r *vcore.Run, cfg c03Config) *dualSys {
 		}
 		big = append(big, `"}`...)
 		u.Manifests = append(u.Manifests, uniManifest{"mbig", mtOpaque, big})
+		// a second one of the same size and media type (a tag may move from one to the other)
+		big2 := append([]byte(nil), big...)
+		big2[len(big2)-3] = 'q'
+		u.Manifests = append(u.Manifests, uniManifest{"mbig2", mtOpaque, big2})
 	}
 	memA, memB := ocimem.New(), ocimem.New()
 	na, nb := new(int), new(int)
@@ -610,6 +614,8 @@ func c03Seeds() [][]Op {
 		{{K: "PushBlob", Repo: "R0", B: 1}, {K: "PushBlob", Repo: "R0", B: 2}, {K: "PushManifest", Repo: "R0", M: 1, Tag: "T0"}, {K: "PushManifest", Repo: "R0", M: 3, Tag: "T1"}},
 		{{K: "PushBlob", Repo: "R0", B: 1}, {K: "PushManifest", Repo: "R0", M: 0, Tag: "T0"}, {K: "PushManifest", Repo: "R0", M: 2, Tag: "T1"}},
 		{{K: "PushBlob", Repo: "R1", B: 2}, {K: "Start", Repo: "R0"}, {K: "Write", H: 0, Piece: "a"}},
+		// an upload that has just been resumed: the next writes go through a resumed client writer
+		{{K: "Start", Repo: "R0"}, {K: "Write", H: 0, Piece: "a"}, {K: "Resume", H: 0, Off: "size"}},
 	}
 }
 
@@ -624,6 +630,12 @@ func c03NamedSeeds(cfg c03Config) [][]Op {
 			nh = append(nh, op)
 		}
 		out = append(out, nh)
+	}
+	if strings.Contains(cfg.Opts, "omitdigest") || cfg.Opts == "all" {
+		// a tag on the large manifest that has been read once (the client needed an extra request to learn
+		// its digest): the tag may then move to another manifest of the same size
+		mbig := len(newUniverse().Manifests) // first manifest appended by newDualSys for these option sets
+		out = append(out, []Op{{K: "PushManifest", Repo: ns.repos[0], M: mbig, Tag: ns.tags[0]}, {K: "Reads"}})
 	}
 	return out
 }
